@@ -5,6 +5,8 @@ CONSTANTS
   MaxKw = 3
   Hazard = {"self", "logger", "action_type", "_serializers", "result", "fields", "args", "kwargs", "_call"}
   MaxHaz = 1
+  Implicit = {"cls", "this"}
+  ImplKw = 1
   HazParams = 2
   HazPos = 2
   HazKw = 2
@@ -20,6 +22,7 @@ INVARIANT Rejection
 INVARIANT DeviationScope
 INVARIANT KindsOK
 INVARIANT LoggedOK
+INVARIANT ImplicitLogged
 INVARIANT Shape
 INVARIANT PlacementOK
 INVARIANT Emit
